@@ -397,7 +397,7 @@ def _replay_chunk(args):
     return out
 
 
-def pool_map(fn, chunks, procs=14):
+def pool_map(fn, chunks, procs=12):
     ctx = multiprocessing.get_context("fork")
     with ctx.Pool(min(procs, max(1, len(chunks)))) as p:
         return list(p.imap(fn, chunks))
@@ -429,16 +429,20 @@ def emit_transitions(chk, plan):
     return out
 
 
-def transition_cover(chk, name, edges):
+def prepare_cover(chk, name, edges):
     acts = chk.cov.setdefault("action_coverage", {})
     for e in edges:
         acts[e[1][3]] = acts.get(e[1][3], 0) + 1
     init, states, out = graph_of(edges)
     paths = cover_paths(init, out, max_len=40)
     full = [[(lab, states[t]) for lab, t in p] for p in paths]
-    n = max(10, len(full) // 56)
+    n = 25
     chunks = [(os.path.join(chk.scratch, "rp_%s_%d" % (name, i)), states[init], full[i:i + n]) for i in range(0, len(full), n)]
-    res = [x for part in pool_map(_replay_chunk, chunks) for x in part]
+    return dict(name=name, edges=edges, init=states[init], nstates=len(states), full=full, chunks=chunks)
+
+
+def finish_cover(chk, prep, res):
+    name, edges, full = prep["name"], prep["edges"], prep["full"]
     steps = 0
     seen = {}
     for p, rr in zip(full, res):
@@ -451,24 +455,28 @@ def transition_cover(chk, name, edges):
             raise MachineryError(rr[1])
         seen[rr[0]] = seen.get(rr[0], 0) + 1
         if seen[rr[0]] <= 3:
-            chk.violation(rr[0], "%s: %s" % (name, rr[1]), {"kind": "replay", "init": states[init], "path": [[lab, st] for lab, st in p]})
+            chk.violation(rr[0], "%s: %s" % (name, rr[1]), {"kind": "replay", "init": prep["init"], "path": [[lab, st] for lab, st in p]})
     for k, n_ in seen.items():
         if n_ > 3:
             print("  (%d more schedules of slice %s fail with key %s)" % (n_ - 3, name, k))
-    chk.cov.setdefault("transition_cover", {})[name] = dict(states=len(states), transitions=len(edges), schedules=len(full), replayed_steps=steps)
-    # what the REAL task did on the replayed schedules: the findings are reported from here
+    chk.cov.setdefault("transition_cover", {})[name] = dict(states=prep["nstates"], transitions=len(edges), schedules=len(full), replayed_steps=steps)
+    # the findings are reported from what the REAL task did on the replayed schedules (they conformed to the as-found model)
+    if seen:
+        return
     for e in edges:
         why = e[2]["g"]["why"]
-        if why == "nodes" and e[0]["g"]["why"] != "nodes":
+        if SW["NodesFatal"] == "TRUE" and why == "nodes" and e[0]["g"]["why"] != "nodes":
             FOUND[F_NODES] = FOUND.get(F_NODES, 0) + 1
-        if why == "gcexc" and e[0]["g"]["why"] != "gcexc":
+        if SW["DeleteConnEscapes"] == "TRUE" and why == "gcexc" and e[0]["g"]["why"] != "gcexc":
             FOUND[F_GCFLIP] = FOUND.get(F_GCFLIP, 0) + 1
-        if e[1][0] in ("Kill", "Interrupt") and e[2]["pub"]["alive"] and e[2]["cl"]["job"] != "gone":
+        if SW["KillForgotten"] == "TRUE" and e[1][0] in ("Kill", "Interrupt") and e[2]["pub"]["alive"] and e[2]["cl"]["job"] != "gone":
             FOUND[F_KILL] = FOUND.get(F_KILL, 0) + 1
-        if e[2]["last"]["st"] == "None" and e[0]["last"]["st"] != "None":
+        if SW["DeleteConnEscapes"] == "TRUE" and e[1][0] == "Kill" and e[1][2]["raised"] == "MaxRetryError":
+            FOUND[F_KILL] = FOUND.get(F_KILL, 0) + 1
+        if SW["FirstConditionWins"] == "TRUE" and e[2]["last"]["st"] == "None" and e[0]["last"]["st"] != "None":
             FOUND[F_COND] = FOUND.get(F_COND, 0) + 1
-        if e[1][0] == "Tick" and e[0]["cl"]["job"] == "complete" and not e[0]["cl"]["pods"] and e[2]["last"]["rs"] != "Success" and e[1][1]["from"] >= 99 \
-                and not e[0]["pub"]["alive"] is False and e[0]["last"]["st"] not in ("finished", "failed"):
+        if SW["CompleteNeedsPod"] == "TRUE" and e[1][0] == "Tick" and e[0]["cl"]["job"] == "complete" and not e[0]["cl"]["pods"] and e[1][1]["from"] >= 99 \
+                and e[0]["last"]["st"] not in ("finished", "failed") and e[2]["last"]["rs"] != "Success":
             FOUND[F_PODGONE] = FOUND.get(F_PODGONE, 0) + 1
     if full:
         p = max(full, key=len)
@@ -481,10 +489,20 @@ def spec_to_code(chk, tier):
     t0 = time.time()
     all_edges = emit_transitions(chk, plan)
     walls = {"emission": round(time.time() - t0, 1)}
-    for (name, _c), edges in zip(plan, all_edges):
-        t0 = time.time()
-        transition_cover(chk, name, edges)
-        walls[name] = round(time.time() - t0, 1)
+    t0 = time.time()
+    preps = [prepare_cover(chk, name, edges) for (name, _c), edges in zip(plan, all_edges)]
+    chunks = [c for pr in preps for c in pr["chunks"]]
+    order = sorted(range(len(chunks)), key=lambda i: -sum(len(p) for p in chunks[i][2]))       # long chunks first
+    res = pool_map(_replay_chunk, [chunks[i] for i in order])
+    by_chunk = {i: r for i, r in zip(order, res)}
+    k = 0
+    for pr in preps:
+        flat = []
+        for _c in pr["chunks"]:
+            flat += by_chunk[k]
+            k += 1
+        finish_cover(chk, pr, flat)
+    walls["replay"] = round(time.time() - t0, 1)
     chk.cov["cover_wall_s"] = walls
     missing = [a for a in ACTIONS if not chk.cov["action_coverage"].get(a)]
     if missing:
@@ -852,9 +870,9 @@ def function_specs(chk, tier):
                 chk.violation(map_key(c["case"]) + ":" + "+".join(fields), "_getTaskState with job %s, pods %s, memory last=%s started=%s pull=%s age=%s, API %s: %s" % (
                     c["case"]["job"], json.dumps(c["case"]["pods"]), c["case"]["last"]["st"], c["case"]["started"], c["case"]["pull"], c["case"]["age"],
                     c["case"]["f"], det), {"kind": "map", "case": c})
-            if c["case"]["job"] == "complete" and not c["case"]["pods"] and c["case"]["f"]["from"] >= 99 and c["res"]["x"]["rs"] != "Success":
+            if SW["CompleteNeedsPod"] == "TRUE" and c["case"]["job"] == "complete" and not c["case"]["pods"] and c["case"]["f"]["from"] >= 99 and c["res"]["x"]["rs"] != "Success":
                 FOUND[F_PODGONE] = FOUND.get(F_PODGONE, 0) + (r is None)
-            if c["case"]["job"] == "other" and c["res"]["x"]["st"] == "None":
+            if SW["FirstConditionWins"] == "TRUE" and c["case"]["job"] == "other" and c["res"]["x"]["st"] == "None":
                 FOUND[F_COND] = FOUND.get(F_COND, 0) + (r is None)
     chk.cov["getTaskState_cases"] = n
     # isAlive / returncode / exitReason / status / poll
@@ -916,21 +934,51 @@ def report_findings(chk):
 
 
 def run(tier):
+    from concurrent.futures import ThreadPoolExecutor
     chk = Check(PID, tier)
     os.makedirs(GEN, exist_ok=True)
     try:
+        import logging
+        logging.disable(logging.CRITICAL)
+        from .. import world_g06 as G        # noqa: imported before the worker processes are forked
+        import experiment.runtime.backends_base    # noqa
         t0 = time.time()
-        if not os.environ.get("G06_SKIP_MODEL"):
-            model_check(chk, tier)
-        t1 = time.time()
-        spec_to_code(chk, tier)
-        t2 = time.time()
-        code_to_spec(chk, tier)
-        t3 = time.time()
-        function_specs(chk, tier)
-        t4 = time.time()
-        chk.cov["phase_wall_s"] = dict(model=round(t1 - t0, 1), cover=round(t2 - t1, 1), traces=round(t3 - t2, 1), functions=round(t4 - t3, 1))
+        walls = {}
+
+        def timed(name, fn, *a):
+            t = time.time()
+            fn(*a)
+            walls[name] = round(time.time() - t, 1)
+        with ThreadPoolExecutor(2) as ex:
+            fm = ex.submit(timed, "model", model_check, chk, tier) if not os.environ.get("G06_SKIP_MODEL") else None
+            ff = ex.submit(timed, "functions", function_specs, chk, tier)
+            timed("cover", spec_to_code, chk, tier)
+            timed("traces", code_to_spec, chk, tier)
+            ff.result()
+            if fm is not None:
+                fm.result()
+        logging.disable(logging.NOTSET)
+        chk.cov["phase_wall_s"] = dict(walls, total=round(time.time() - t0, 1))
         report_findings(chk)
+        th = tier == "thorough"
+        chk.cov["rule"] = ("run: EVERY transition of the bounded models (slices: life, config, pull, outage, faults, others, twophase, kills -- cluster scenarios x "
+                           "ticks x kill / terminate / ^C x API scripts (failure kind x first failing request, blips, the cluster moving between two requests of a poll)) "
+                           "lies on at least one schedule replayed on the real NativeScheduledTask, the full projection compared after every step; map: EVERY case of "
+                           "the %s grid of job status x pod status fields x task memory (+ API scripts on a reduced grid) on the real _getTaskState; exit: every "
+                           "(state, exit reason, return code, terminated, stdout) on the real isAlive / returncode / exitReason / status / poll; seeded random "
+                           "schedules validated by TLC; distinct = distinct schedules / cases / seeds" % ("full" if th else "quick"))
+        chk.cov["exhaustive"] = True
+        chk.cov["switches"] = dict(SW)
+        chk.assumptions += [
+            "the cluster is a stand-in below the real kubernetes client (urllib3 pool manager replaced): job and pod documents carry the fields a 1.2x-1.3x API "
+            "server sends for the modelled situations; deleting a job with propagationPolicy Background removes the Job object at once and leaves its pods terminating",
+            "a step of the task (one emission of the polling pipeline incl. the nested manual emission and garbage collection; kill(); terminate(); wait() + ^C) is atomic: "
+            "kill() racing with a poll on another thread of the rx pool is not explored (both mutate lastReportedState / _remaining_image_pull_errors without a lock)",
+            "time is virtual: polling interval 100 s, random.randint(10, 15) pinned to 10 s; the 5-minute API outage limit and the retry sleeps are exact in units of 5 s",
+            "API failures are 'from request k of the step on' (503 / 504 / connection refused) or a single failing request (blips); other patterns are not explored",
+            "_getTaskState is called directly for the function specification (the pipeline calls it through a closure that turns exceptions into None; the harness does the same)",
+            "pod templates (podSpec merge), volumes, image-id bookkeeping, performanceInfo (epoch-*) and the content of the archived yaml files are not modelled "
+            "(only whether and how often the objects are archived)"]
         return chk.finish()
     finally:
         shutil.rmtree(GEN, ignore_errors=True)
